@@ -620,6 +620,10 @@ def exhaustive_alphabet(groups, nkeys):
         p = (g, key_of(0, g), 0)
         al.append([("X", p), ("W", (-1, 2, g), 100), ("V", p, (-1, 2, g))])
     al += [[("S", "CUR")], [("AG", paths)], [("A", list(reversed(paths)), True)]]
+    # the oldest file's twin: the same file name (same time key) in the other subdirectory of the channel
+    for g in groups:
+        tw = (g, key_of(0, g), 1)
+        al += [[("W", tw, 100), ("C", tw)], [("D", tw)]]
     return al
 
 
